@@ -61,6 +61,8 @@ structure CertFacts : Prop where
   edge : ∀ q x t, C.hasEdge q x t = true → t ≠ 0 ∧ C.accOf t = x ∧ q ∈ C.predsOf t
   red : ∀ t col p, asReduce (actionAt T t col) = some p → C.redOK T t p = true
   redEof : ∀ t p, asReduce (eofActionAt T t) = some p → C.redOK T t p = true
+  redMem : ∀ t col p, asReduce (actionAt T t col) = some p → p ∈ C.redsOf t ∧ t < C.reds.size
+  redEofMem : ∀ t p, asReduce (eofActionAt T t) = some p → p ∈ C.redsOf t ∧ t < C.reds.size
 
 theorem actionAt_entry {q col : Nat} (h : actionAt T q col ≠ 0) :
     ∃ row, (row, q) ∈ T.action.toList.zipIdx ∧ (actionAt T q col, col) ∈ row.toList.zipIdx := by
@@ -99,7 +101,33 @@ theorem certFacts (h : C.ok T = true) : CertFacts T C := by
     have := (List.all_eq_true.mp hrows) (row, q) h1
     have := (List.all_eq_true.mp this) (actionAt T q col, col) h2
     simpa only [Bool.and_eq_true] using this
-  refine ⟨hpos, ?_, ?_, ?_, ?_⟩
+  have hsize : ∀ t p, p ∈ C.redsOf t → t < C.reds.size := by
+    intro t p hmem
+    unfold Cert.redsOf at hmem
+    cases hs : C.reds[t]? with
+    | none => simp [hs] at hmem
+    | some l => exact (Array.getElem?_eq_some_iff.mp hs).1
+  have hmemA : ∀ t col p, asReduce (actionAt T t col) = some p → p ∈ C.redsOf t := by
+    intro t col p hr
+    have := (hentry t col (asReduce_ne_zero hr)).2
+    unfold Cert.actOK at this
+    simpa [hr] using this
+  have hmemE : ∀ t p, asReduce (eofActionAt T t) = some p → p ∈ C.redsOf t := by
+    intro t p hr
+    have hne := asReduce_ne_zero hr
+    unfold eofActionAt at hne hr
+    cases he : T.eof[t]? with
+    | none => simp [he] at hne
+    | some a =>
+      have hmem : (a, t) ∈ T.eof.toList.zipIdx :=
+        List.mk_mem_zipIdx_iff_getElem?.mpr (by rw [Array.getElem?_toList]; exact he)
+      unfold Cert.eofOK at heof
+      have := (List.all_eq_true.mp heof) (a, t) hmem
+      simp only [he, Option.getD] at hr
+      unfold Cert.actOK at this
+      simpa [hr] using this
+  refine ⟨hpos, ?_, ?_, ?_, ?_, fun t col p hr => ⟨hmemA t col p hr, hsize t p (hmemA t col p hr)⟩,
+    fun t p hr => ⟨hmemE t p hr, hsize t p (hmemE t p hr)⟩⟩
   · intro q col t hs
     have := (hentry q col (asShift_ne_zero hs)).1
     unfold Cert.shiftOK at this
